@@ -2,6 +2,7 @@
 import gzip, hashlib, json, os, sys, time, importlib
 
 VERIF = os.path.dirname(os.path.dirname(os.path.abspath(__file__)))
+OUT = os.environ.get("VERIF_OUT") or VERIF      # where evidence/ and replays/ are written (mutant trials use a scratch dir)
 KNOWN = os.path.join(VERIF, "known")
 FINDINGS = os.path.join(KNOWN, "findings.txt")
 
@@ -124,7 +125,7 @@ class Ctx:
             if name in known_hits:
                 print("KNOWN-FINDING: property=%s class=%s reproduced=%d listed=%d %s" % (
                     self.pid, name, len(known_hits[name]), len(keys), what))
-        rdir = os.path.join(VERIF, "replays", self.pid)
+        rdir = os.path.join(OUT, "replays", self.pid)
         paths = []
         if new:
             os.makedirs(rdir, exist_ok=True)
@@ -152,11 +153,11 @@ class Ctx:
         ev = {"property_id": self.pid, "tier": self.tier, "seed": self.seed, "level": self.level,
               "coverage": cov, "assumptions": list(assumptions) + self.assumptions,
               "wall_s": round(time.time() - self.t0, 2), "violations": len(new)}
-        os.makedirs(os.path.join(VERIF, "evidence"), exist_ok=True)
-        tmp = os.path.join(VERIF, "evidence", ".%s.tmp" % self.pid)
+        os.makedirs(os.path.join(OUT, "evidence"), exist_ok=True)
+        tmp = os.path.join(OUT, "evidence", ".%s.tmp" % self.pid)
         with open(tmp, "w") as fh:
             json.dump(ev, fh, indent=1, default=str)
-        os.replace(tmp, os.path.join(VERIF, "evidence", self.pid + ".json"))
+        os.replace(tmp, os.path.join(OUT, "evidence", self.pid + ".json"))
         print("[%s %s] wall=%.1fs states=%s transitions=%s new=%d known=%d exhaustive=%s" % (
             self.pid, self.tier, time.time() - self.t0, cov.get("states"), cov.get("transitions"),
             len(new), sum(len(v) for v in known_hits.values()), cov["exhaustive"]))
